@@ -67,3 +67,25 @@ package app
 //@ assume after call initConfiguration: [options-keep-wiring] s.Configure != nil && s.Factory != nil
 //@ assume after call initFactory: [options-keep-wiring2] s.Configure != nil && s.Factory != nil
 //@ assume after call (*github.com/go-kid/ioc/app.App).refresh: [injected-runners-non-nil] forall(k, int, implies(0 <= k && k < len(s.ApplicationRunners), s.ApplicationRunners[k] != nil))
+
+// ---- options that configure sources (C15): adding a source never discards the sources configured earlier --------
+
+//@ func SetConfig$1
+//@ property C15
+//@ requires [configure-set] s != nil && s.Configure != nil
+//@ assigns s.Configure.NLoaders, s.Configure.LoaderAt
+//@ ensures [adds-file-loader] s.Configure.NLoaders == old(s.Configure.NLoaders) + 1 && s.Configure.LoaderAt[old(s.Configure.NLoaders)] == loader.FileLoader(cfg)
+//@ ensures [adds-keeps-earlier] forall(i, int, implies(0 <= i && i < old(s.Configure.NLoaders), s.Configure.LoaderAt[i] == old(s.Configure.LoaderAt[i])))
+
+//@ func AddConfigLoader$1
+//@ property C15
+//@ requires [configure-set] s != nil && s.Configure != nil
+//@ assigns s.Configure.NLoaders, s.Configure.LoaderAt
+//@ ensures [adds-all] s.Configure.NLoaders == old(s.Configure.NLoaders) + len(loaders) && forall(i, int, implies(0 <= i && i < len(loaders), s.Configure.LoaderAt[old(s.Configure.NLoaders) + i] == loaders[i]))
+//@ ensures [adds-keeps-earlier] forall(i, int, implies(0 <= i && i < old(s.Configure.NLoaders), s.Configure.LoaderAt[i] == old(s.Configure.LoaderAt[i])))
+
+//@ func SetConfigLoader$1
+//@ property C15
+//@ requires [configure-set] s != nil && s.Configure != nil
+//@ assigns s.Configure.NLoaders, s.Configure.LoaderAt
+//@ ensures [replaces] s.Configure.NLoaders == len(loaders) && forall(i, int, implies(0 <= i && i < len(loaders), s.Configure.LoaderAt[i] == loaders[i]))
